@@ -1612,6 +1612,63 @@ int streamMt(std::istream& in)
   return 0;
 }
 
+// --------------------------------------------------------------------------------------------
+// sysfs: start-up under a substituted /sys/devices/system/cpu tree (hook H2).  The CpuInfo singleton is
+//   built at load time, so every tree needs its own process: the parent re-executes itself with
+//   PRIMESIEVE_VERIF_SYSFS_ROOT set (stream `sysfs1`).  The child prints a line of the `cfg` stream's
+//   `gss` shape with the cache description IT PARSED, so the Lean model checks get_sieve_size() and
+//   Erat's L1 size for exactly that description; the harness checks that the library initialised at
+//   all (exit status 0) and that results do not depend on the topology.
+//   op: sysfs <dir>
+// --------------------------------------------------------------------------------------------
+std::string selfPath;
+
+int streamSysfs1()
+{
+  uint64_t v[4];
+  primesieve_verif_probe::readCpu(v);
+  int sz = primesieve::get_sieve_size();
+  uint64_t l1 = primesieve_verif_probe::l1CacheSize();
+  const uint64_t A = 1000000000ull, B = 1000300000ull;
+  uint64_t expC[6];
+  oracleCounts(A, B, expC);
+  uint64_t c = primesieve::count_primes(A, B);
+  uint64_t tw = primesieve::count_twins(A, B);
+  primesieve::iterator it(A + 12345);
+  uint64_t p = it.next_prime(), q = it.prev_prime();
+  bool ok = c == expC[0] && tw == expC[1] && isPrimeOracle(p) && isPrimeOracle(q) && q < p && sz >= 16 && sz <= 8192;
+  std::cout << "gss " << v[0] << " " << v[1] << " " << v[2] << " " << v[3] << " => size=" << sz << " l1=" << l1;
+  if (!ok) std::cout << " ORACLE-MISMATCH count=" << c << " twins=" << tw << " expected=" << expC[0] << "," << expC[1] << " size=" << sz;
+  std::cout << "\n";
+  return 0;
+}
+
+int streamSysfs(std::istream& in)
+{
+  std::string line;
+  while (std::getline(in, line))
+  {
+    auto t = split(line);
+    if (t.empty() || t[0][0] == '#')
+      continue;
+    if (t[0] != "sysfs" || t.size() < 2) { std::cerr << "bad op: " << line << "\n"; return 2; }
+    std::string cmd = "PRIMESIEVE_VERIF_SYSFS_ROOT=" + shellQuote(t[1]) + " ASAN_OPTIONS=exitcode=99:detect_leaks=1 UBSAN_OPTIONS=print_stacktrace=1:exitcode=99 timeout -s KILL 120 "
+                      + shellQuote(selfPath) + " sysfs1 /dev/null 2>/dev/null";
+    FILE* f = popen(cmd.c_str(), "r");
+    if (!f) { std::cerr << "popen failed\n"; return 2; }
+    std::string raw; char buf[4096]; size_t n;
+    while ((n = fread(buf, 1, sizeof buf, f)) > 0) raw.append(buf, n);
+    int st = pclose(f);
+    int rc = WIFEXITED(st) ? WEXITSTATUS(st) : 128 + (WIFSIGNALED(st) ? WTERMSIG(st) : 0);
+    while (!raw.empty() && raw.back() == '\n') raw.pop_back();
+    if (rc != 0 || raw.rfind("gss ", 0) != 0)
+      std::cout << "gss 0 0 0 0 => DID-NOT-INITIALISE rc=" << rc << " ORACLE-MISMATCH the library did not start up / crashed under the cache description in " << t[1] << "\n";
+    else
+      std::cout << raw << "\n";
+  }
+  return 0;
+}
+
 } // namespace
 
 int main(int argc, char** argv)
@@ -1622,6 +1679,9 @@ int main(int argc, char** argv)
     return 2;
   }
   std::string stream = argv[1];
+  selfPath = argv[0];
+  if (stream == "sysfs1")
+    return streamSysfs1();
   std::ifstream in(argv[2]);
   if (!in)
   {
@@ -1657,6 +1717,8 @@ int main(int argc, char** argv)
     return streamCApi(in);
   if (stream == "mt")
     return streamMt(in);
+  if (stream == "sysfs")
+    return streamSysfs(in);
   if (stream == "cross")
     return streamCross(in);
   if (stream == "cli")
